@@ -21,7 +21,8 @@ PARAMS = [('BHT', 'DEGC', '35.5', 'BOTTOM HOLE TEMPERATURE'), ('RMF', 'OHM.M', '
 def _same(got, want):
     """equal AND of the same type (the value of a header line is typed: integer, float, yes/no or text)."""
     return type(got) is type(want) and got == want
-CELLS = ['123.45', '-999.25', '1e3', '0', 'abc', '-.5', '7.', '1.2.3']
+# (genuine readings next to the null value stay live: only the null value itself is absent)
+CELLS = ['123.45', '-999.25', '1e3', '0', 'abc', '-.5', '7.', '1.2.3', '-999.2549', '-999.245']
 
 
 def _content(vers20, ncurves, nframes, params, c0, c1, c2):
@@ -151,3 +152,48 @@ def sect_line_chars(m0: int, m1: int, u0: int, u1: int, vkind: int, spaces: int)
         mark.hit()
         sl = LASRead.line_to_sect_line(line)
         return (sl.mnem, sl.unit, sl.desc) == (L.typed(mnem), L.typed(unit) if unit else '', desc) and _same(sl.valu, L.typed(value) if value else '')
+
+
+# ---------------------------------------------------------------------------------------------------- lenient reading
+
+REPEATS = ['DEPT GR RHOB NPHI', 'DEPT GR GR RHOB', 'DEPT GR GR RHOB NPHI RHOB ILD', 'DEPT GR RHOB GR GR NPHI', 'DEPT GR RHOB NPHI NPHI']
+
+
+def _lenient(pat, wrap, nframes, per_line):
+    """Lenient reading (raise_on_error=False) of a file whose curve section repeats mnemonics: the repeats are ignored, every distinct curve
+    keeps its place and the values of ITS OWN column.  Without repeats lenient and strict reading agree."""
+    import numpy as np
+    names = REPEATS[pat].split()
+    curves = [(n, 'M' if i == 0 else 'U%d' % i, '%d  COLUMN %d' % (i, i)) for i, n in enumerate(names)]
+    frames = [['%.3f' % (1670.0 - 0.125 * f)] + ['%d.%d' % (100 * c + f, c) for c in range(1, len(names))] for f in range(nframes)]
+    content = dict(vers=2.0, well=WELL, curves=curves, params=None, frames=frames)
+    lay = dict(wrap=wrap, lead=0, sep=2, comments=False, blanks=False, per_line=per_line, colon_pad=1)
+    text = L.render(content, lay)
+    las = LASRead.LASRead(io.StringIO(text), 'id', raise_on_error=False)
+    mark.hit()
+    keep = [i for i, n in enumerate(names) if n not in names[:i]]
+    fa = las.frame_array
+    if [c.ident for c in fa.channels] != [names[i] for i in keep] or [c.units for c in fa.channels] != [curves[i][1] for i in keep]:
+        return False
+    if las.number_of_frames() != nframes:
+        return False
+    for ch, i in zip(fa.channels, keep):
+        if [float(x) for x in np.ma.getdata(ch.array).flatten()] != [float(fr[i]) for fr in frames]:
+            return False
+    if len(keep) == len(names):
+        strict = LASRead.LASRead(io.StringIO(text), 'id')
+        for a, b in zip(strict.frame_array.channels, fa.channels):
+            if a.ident != b.ident or not np.array_equal(np.ma.getdata(a.array), np.ma.getdata(b.array)):
+                return False
+    return True
+
+
+def lenient_repeated_curves(pat: int, wrap: bool, nframes: int, per_line: int) -> bool:
+    """
+    pre: 0 <= pat <= 4 and 1 <= nframes <= 3 and 1 <= per_line <= 3
+    pre: wrap or per_line == 1
+    post: _
+    """
+    pat, wrap, nframes, per_line = mark.pick(pat, 0, 4), mark.pickb(wrap), mark.pick(nframes, 1, 3), mark.pick(per_line, 1, 3)
+    with mark.untraced():
+        return _lenient(pat, wrap, nframes, per_line)
